@@ -100,8 +100,9 @@ def _dyadic(x: Fraction) -> bool:
 
 def lint_spec(recipes: List[Any]) -> Tuple[List[Tuple[str, str]], bool, bool]:
     """Documented verdicts in exact arithmetic: (lints, ambiguous, float_conversion).
-    ambiguous: some decision was within 1e-9 of a boundary where the float implementation may legitimately differ
-    (on the boundary itself only sums of dyadic terms, which floats add exactly, are decisive);
+    ambiguous: some decision was within 1e-9 of (but not on) the remainder boundary, or within 1e-9 of the 2% boundary,
+    where the float implementation may legitimately differ.  A remainder after EXACTLY full use is decisive: 'no
+    remainder left' is required (known finding F16 when the binary64 sum falls below 1.0);
     float_conversion: a unit conversion factor was a float (lb, cup, pint)."""
     import recipe_grid.recipe as R
     from recipe_grid.units import UNIT_SYSTEM
@@ -173,7 +174,7 @@ def lint_spec(recipes: List[Any]) -> Tuple[List[Tuple[str, str]], bool, bool]:
                         dyadic = False
                     used += term
                 elif a.value is None:
-                    if abs(used - 1) <= EPS and not (used == 1 and dyadic):
+                    if used != 1 and abs(used - 1) <= EPS:
                         ambiguous = True
                     if used >= 1:
                         problem = True
@@ -492,8 +493,101 @@ def replay(inp: Any) -> Case:
     return make_case(inp["sources"], val, k, "replay")
 
 
+def remainder_points(recipes: List[Any]) -> Dict[str, List[Tuple[Fraction, float]]]:
+    """For every output name: (exact sum, the implementation's float accumulation) just before each remainder use,
+    replaying lint.py's arithmetic in Python floats.  Outputs with a problem before the remainder are left out."""
+    import recipe_grid.recipe as R
+    from recipe_grid.units import UNIT_SYSTEM
+    groups: List[Tuple[Any, Dict[int, List[Any]]]] = []
+
+    def visit(n: Any) -> None:
+        if isinstance(n, R.Reference):
+            for k, d in groups:
+                if k == n.sub_recipe:
+                    d.setdefault(n.output_index, []).append(n)
+                    break
+            else:
+                groups.append((n.sub_recipe, {n.output_index: [n]}))
+        elif isinstance(n, R.SubRecipe):
+            visit(n.sub_tree)
+        elif isinstance(n, R.Step):
+            for i in n.inputs:
+                visit(i)
+
+    for r in recipes:
+        for t in r.recipe_trees:
+            visit(t)
+    out: Dict[str, List[Tuple[Fraction, float]]] = {}
+    for sr, per in groups:
+        for idx, refs in per.items():
+            name = str(sr.output_names[idx])
+            total = _total(sr)
+            exact, fl = Fraction(0), 0.0
+            pts: List[Tuple[Fraction, float]] = []
+            ok = True
+            for ref in refs:
+                a = ref.amount
+                if isinstance(a, R.Quantity):
+                    if total is None or total.value == 0:
+                        ok = False
+                        break
+                    try:
+                        if a.unit is not None and total.unit is not None:
+                            conv: Any = UNIT_SYSTEM.convert_between(a.unit.lower(), total.unit.lower())
+                        elif a.unit is None and total.unit is None:
+                            conv = 1
+                        else:
+                            raise KeyError()
+                    except KeyError:
+                        ok = False
+                        break
+                    exact += Fraction(a.value) * Fraction(conv) / Fraction(total.value)
+                    fl += (a.value * conv) / total.value
+                elif a.value is None:
+                    pts.append((exact, fl))
+                    exact, fl = max(Fraction(1), exact), max(1.0, fl)
+                else:
+                    exact += Fraction(a.value)
+                    fl += a.value
+            if ok:
+                out.setdefault(name, []).extend(pts)
+    return out
+
+
 def known_match(finding: Any, case: Case) -> bool:
-    return False
+    if finding.get("matches") != "remainder_after_exact_full_use_float_sum_below_one":
+        return False
+    inp = case.input
+    st, recipes = C08._compile_job(inp["sources"])
+    if st != "ok":
+        return False
+    if inp.get("k") is not None:
+        recipes = [r.scale(c.num_unjson(inp["k"])) for r in recipes]
+    res = run_lint(recipes)
+    if res[0] != "ok":
+        return False
+    spec, _amb, _fc = lint_spec(recipes)
+    impl = list(res[1])
+    missing = list(spec)
+    extra = []
+    for x in impl:
+        if x in missing:
+            missing.remove(x)
+        else:
+            extra.append(x)
+    if not missing:
+        return False
+    pts = remainder_points(recipes)
+    names = set()
+    for kind, name in missing:
+        if kind != "sub_recipe_reference_non_positive_remainder":
+            return False
+        # this output has a remainder reached with the uses adding up to exactly 1 while the float sum is below 1.0
+        if not any(e == 1 and f < 1.0 for e, f in pts.get(name, [])):
+            return False
+        names.add(name)
+    # the only other difference allowed: the final verdict the implementation then still computes for that output
+    return all(kind in ("sub_recipe_not_used_up", "sub_recipe_used_too_much") and name in names for kind, name in extra)
 
 
 THEOREMS.update({"C20_smoke": "example"})
